@@ -208,12 +208,15 @@ class DirectedWeightedGraph : private LabeledDirectedGraph<EdgeWeight> {
         assertVertexInRange(vertex);
 
         auto &successors = adjacencyList[vertex];
+        const Successors formerSuccessors = successors;
         auto j = successors.begin();
         while (j != successors.end()) {
             totalWeight -= getEdgeLabel(vertex, *j, false);
             successors.erase(j++);
             edgeNumber--;
         }
+        for (const VertexIndex &successor : formerSuccessors)
+            edgeLabels.erase({vertex, successor});
         for (VertexIndex i = 0; i < size; ++i)
             removeEdge(i, vertex);
     }
